@@ -455,6 +455,10 @@ pub struct ObjectSpec {
     pub source: SourceSpec,
     /// take the TOI from a previously allocated handle (index into the run's handle list)
     pub use_handle: Option<usize>,
+    /// build the ObjectDesc through the typed builders (CreateFromBuffer / CreateFromStream / CreateFromFile)
+    /// instead of the ObjectDesc::create_from_* functions
+    #[serde(default)]
+    pub via_builder: bool,
 }
 
 impl ObjectSpec {
@@ -480,6 +484,7 @@ impl ObjectSpec {
             immediate_stop: None,
             source: SourceSpec::Buffer,
             use_handle: None,
+            via_builder: false,
         }
     }
 
@@ -524,6 +529,39 @@ impl ObjectSpec {
         let cfg = self.transfer_config()?;
         let url = url::Url::parse(&self.location).map_err(|e| format!("url {:?}", e))?;
         let data = self.content();
+        if self.via_builder {
+            use flute::sender::{CreateFromBuffer, CreateFromFile, CreateFromStream};
+            let r = match &self.source {
+                SourceSpec::Buffer => CreateFromBuffer::builder().content(data).content_type(self.ctype.clone()).content_location(url).compute_md5(self.md5).config(cfg).build().create(),
+                SourceSpec::Stream(sched) => CreateFromStream::builder()
+                    .stream(Box::new(SimStream::new(data, sched.clone())))
+                    .content_type(self.ctype.clone())
+                    .content_location(url)
+                    .compute_md5(self.md5)
+                    .config(cfg)
+                    .build()
+                    .create(),
+                SourceSpec::StreamAt(sched, permille) => {
+                    let mut s = SimStream::new(data, sched.clone());
+                    s.pos = (s.data.len() as u64 * (*permille).min(1000) as u64 + 999) / 1000;
+                    CreateFromStream::builder().stream(Box::new(s)).content_type(self.ctype.clone()).content_location(url).compute_md5(self.md5).config(cfg).build().create()
+                }
+                SourceSpec::File | SourceSpec::FileInRam => {
+                    let path = scratch.join(format!("src-{}.bin", idx));
+                    std::fs::write(&path, &data).map_err(|e| format!("write temp {:?}", e))?;
+                    CreateFromFile::builder()
+                        .path(path)
+                        .content_location(Some(url))
+                        .content_type(self.ctype.clone())
+                        .cache_in_ram(matches!(self.source, SourceSpec::FileInRam))
+                        .compute_md5(self.md5)
+                        .config(cfg)
+                        .build()
+                        .create()
+                }
+            };
+            return r.map_err(|e| format!("{:?}", e));
+        }
         let r = match &self.source {
             SourceSpec::Buffer => {
                 ObjectDesc::create_from_buffer(data, &self.ctype, &url, self.md5, cfg)
